@@ -1,7 +1,7 @@
 (* C08 -- point-in-time restore copies an exact, valid prefix or nothing.
    Only statements closed by [exact]; proofs live in proofs/PitrProofs.v.
    The checksum function is universally quantified ([crc]). *)
-From KS Require Import lib.Base lib.PitrWire model.Pitr proofs.PitrProofs.
+From KS Require Import lib.Base lib.PitrWire model.Pitr proofs.PitrProofs proofs.PitrBatchProofs proofs.PitrCopyProofs.
 Open Scope Z_scope.
 
 (* (3) a failed restore leaves no object under the target prefix (space 1) that did
@@ -14,6 +14,72 @@ Theorem C08_rollback : forall crc s0 faults T parts w',
   forall k, k_space k = 1 -> present (w_objs w') k -> present s0 k.
 Proof. exact restore_rollback. Qed.
 Print Assumptions C08_rollback.
+
+(* (1a) per batch (truncateRecordBatchToTimestamp), for EVERY batch whose header is
+       consistent with its records (the guard, [hdr_consistent]) and every cutoff: the
+       records of the batch that is kept are exactly the records before the first one
+       later than T -- same offsets, same timestamps, byte-equal (the views are built
+       from the decoded header and records of the OUTPUT batch); nothing is kept iff
+       that prefix is empty; and the scan goes on to the next batch (done = false) iff
+       no record was cut.  (2) A rewritten batch has batchLength = len - 12, CRC =
+       crc(bytes[21:]), numRecords = number of its records, lastOffsetDelta = its last
+       record's offset delta; otherwise it is the unchanged source batch. *)
+Theorem C08_truncate_prefix : forall crc b T keep done,
+  hdr_consistent b -> truncate_batch crc b T = Ok (keep, done) ->
+  exists base first rs, batch_view b = Some (base, first, rs) /\
+    let kept := take_while (keep_p first T) rs in
+    match keep with
+    | None => kept = []
+    | Some b' => kept <> [] /\ batch_view b' = Some (base, first, kept) /\ (b' = b \/ valid_fields crc b' kept)
+    end /\
+    (done = false <-> kept = rs).
+Proof. exact truncate_spec. Qed.
+Print Assumptions C08_truncate_prefix.
+
+(* (1b)+(2) lifted to the final candidate segment (buildRestorePlan =
+       collectRecoverableBatches + BuildSegment), for EVERY well-formed source segment
+       (32-byte header with magic, frames with batchLength = len - 12 and consistent
+       headers, 16-byte footer), every index object, cutoff and creation time: the
+       body of the rewritten segment is a list of batches whose records, concatenated,
+       are exactly the source segment's records up to (excluding) the first record with
+       ts > T; every batch in it is a source batch or has valid fields
+       (C08_batches_valid); keep=false happens iff that prefix is empty. *)
+Theorem C08_prefix_segment : forall crc seg bs ix T created, seg_wf seg bs ->
+  match build_plan crc seg ix T created with
+  | Err => True
+  | Ok None => take_while (ts_ok T) (concat (map recs_of bs)) = []
+  | Ok (Some a) =>
+      exists out, out <> [] /\ seg_body (a_seg a) = concat out /\
+        concat (map recs_of out) = take_while (ts_ok T) (concat (map recs_of bs)) /\
+        Forall (out_ok crc bs) out /\ a_base a = b_base (hd [] out)
+  end.
+Proof. exact plan_spec. Qed.
+Print Assumptions C08_prefix_segment.
+
+Theorem C08_batches_valid : forall crc T bs fuel out,
+  Forall frame_ok bs -> (length bs < fuel)%nat ->
+  collect crc fuel (concat bs) T = Ok out ->
+  Forall (fun b' => In b' bs \/
+            exists base first rs', batch_view b' = Some (base, first, rs') /\ valid_fields crc b' rs') out.
+Proof. intros crc T bs fuel out H1 H2 H3. exact (proj2 (collect_spec crc T bs fuel out H1 H2 H3)). Qed.
+Print Assumptions C08_batches_valid.
+
+(* (1c) PARTIAL lift to the whole restore, for every object map, fault sequence,
+       cutoff and partition list: every segment object under the target prefix after
+       a successful restore existed before, or is the byte-identical copy of the source
+       segment object with the same partition and base offset, or is the segment
+       build_plan rewrote from a source segment object of that partition (to which
+       C08_prefix_segment applies).  NOT mechanised: completeness and order of the copy
+       (that exactly the segments before the last candidate are copied whole and the
+       last candidate is the one rewritten, i.e. the flattening into one record list
+       per partition) -- that part is covered by the executable model + correspondence
+       and by the implementation-side oracle. *)
+Theorem C08_prefix_partial : forall crc s0 faults T parts summ w',
+  restore crc (mkW s0 faults false) T parts = (Ok summ, w') ->
+  forall k v, k_space k = 1 -> k_idx k = false -> s_get (w_objs w') k = Some v ->
+    s_get s0 k = Some v \/ justified crc s0 T k v.
+Proof. exact restore_objects_justified. Qed.
+Print Assumptions C08_prefix_partial.
 
 (* non-vacuity: a two-record batch (timestamps 1000, 1002) restored to T = 1001 is
    rewritten to one record; the fault-free run creates both target objects; a fault
@@ -30,7 +96,9 @@ Example C08_nonvacuous :
    r = Ok [(0, 1, 0)] /\ present (w_objs w) (seg_key 1 0 0) /\ present (w_objs w) (idx_key 1 0 0)) /\
   (let '(r, w) := restore crc32c (mkW ex_store (List.repeat false 7 ++ [true]) false) 1001 [] in
    r = Err /\ w_delfail w = false /\ s_get (w_objs w) (seg_key 1 0 0) = None) /\
-  (exists b', truncate_batch crc32c ex_batch 1001 = Ok (Some b', true) /\ zlen b' = 68).
+  (exists b', truncate_batch crc32c ex_batch 1001 = Ok (Some b', true) /\ zlen b' = 68) /\
+  hdr_consistent ex_batch /\ frame_ok ex_batch /\
+  recs_of ex_batch = [(0, 1000, [12;0;0;0;1;0;0]); (1, 1002, [12;0;4;2;1;0;0])].
 Proof.
   vm_compute. repeat split; try discriminate. eexists; split; reflexivity.
 Qed.
